@@ -6,7 +6,10 @@ actually traversed, and then the output must carry an error element and a record
 Workloads: (A) template call graphs on <=5 templates INCLUDING cycles through bodies, arguments,
 defaults and parser-function branches, deep nesting 1..100; (B) every key of PARSER_FUNCTIONS x
 hostile argument vectors; (C) #expr/#ifexpr token sequences; (D) magic words on titles in every
-namespace."""
+namespace; (E) hostile page texts / template bodies: every nestable construct nested far beyond the
+depth limit (also under pre_expand), hostile argument NAMES in every place a name is read,
+bracket soups and pumped (unit*k) texts without any template, the package's placeholder
+characters in the input, and cycles walked through COMPUTED template names."""
 from __future__ import annotations
 
 import random
@@ -21,11 +24,19 @@ RULE = ("cases: (A) libraries of <=5 templates with arbitrary call graphs (cycle
         "branches; exhaustive adjacency for <=3 templates in thorough) + nesting depth 1..100; (B) every PARSER_FUNCTIONS key "
         "(minus network-bound #property/#statements) x argument vectors none/empty/blank/non-numeric/0/negative/huge/float/inf/"
         "NUL/unicode/'='/long, 0-6 args; (C) #expr/#ifexpr token soups over all operators, functions, domain/overflow literals; "
-        "(D) page-title magic words on titles in every namespace incl. talk. non-trivial = distinct case that reached a template "
-        "expansion or a parser function call")
+        "(D) page-title magic words on titles in every namespace incl. talk; (E) hostile texts: each nestable construct (calls, "
+        "parser functions, links, external links, parameter names/defaults, mixtures, the same inside parameter defaults and inside "
+        "template bodies) nested 150/400/1100 deep with and without pre_expand; argument names (huge/long/non-ASCII digit strings, signs, "
+        "blanks) in {{{N}}}, {{{N|d}}}, {{t|N=v}}, bodies, #invoke arguments and parent-frame arguments read from Lua; bracket soups "
+        "and pumped texts prefix+unit*k+suffix over the bracket vocabulary incl. '-{}-', nowiki, comments (<= 400 chars random; every "
+        "prefix x single token pumped to 2000 chars); placeholder characters; "
+        "three templates that call the template NAMED by their argument along square-free / periodic words. non-trivial = distinct "
+        "case that reached a template expansion or a parser function call")
 ASSUMPTIONS = ["per-case CPU budget (ITIMER_VIRTUAL) 10 s quick / 20 s thorough stands for 'bounded time' on inputs <= 2 kB",
                "network-bound parser functions (#property, #statements) excluded; interwiki table initialised with a stub",
-               "Lua stand-ins installed; #invoke is exercised only with a missing module / benign module here (C07 covers Lua)"]
+               "Lua stand-ins installed; #invoke is exercised only with a missing module / benign module here (C07 covers Lua)",
+               "a page of <= 400 characters that calls no template and no parser function gets 2 CPU-seconds, one of <= 2000 "
+               "characters 5 CPU-seconds (part E bracket soups; such pages normally take a few milliseconds)"]
 WALL = {"quick": 1200, "thorough": 7200}
 EXCLUDE = {"#property", "#statements"}
 
@@ -49,7 +60,13 @@ def floors(tier):
     return {"counters.part.A": 200, "counters.part.B": 1000, "counters.part.C": 500, "counters.part.D": 100,
             "oracle.returns-str-in-budget": 3000, "oracle.cycle-reported-in-band": 50, "counters.loop_detector_fired": 50, "counters.redirect-libraries": 10,
             "counters.depth_limit_fired": 1, "sets.parser_functions": 140, "anchors.parserfns.expr_fn": 300,
-            "anchors.core.detect_expand_template_loop": 300}
+            "anchors.core.detect_expand_template_loop": 300,
+            "counters.E.deep-nesting>100": len(DEEP_COMBOS), "sets.deep-shapes": 2 * len(DEEP_SHAPES),
+            "oracle.deep-nesting>100-never-raises": len(DEEP_COMBOS),
+            "counters.E.hostile-argument-names": len(NAME_COMBOS), "sets.name-classes": 5,
+            "counters.E.placeholder-chars": len(PLACEHOLDER_COMBOS), "counters.E.computed-name-walks": 90,
+            "counters.E.computed-name-walks(branching)": 1, "counters.E.soup.pumped": 500, "counters.E.soup.random": 500,
+            "oracle.bracket-soup-returns-in-2s": 1800, "oracle.pumped-2kB-page-returns-in-5s": len(PUMP_COMBOS)}
 
 
 def shards(tier, seed):
@@ -60,13 +77,18 @@ def shards(tier, seed):
 
 
 _CTX = None
+# e.f: as before; e.a / e.p read every argument of the frame / of the parent frame (names travel into Lua)
+MODULE_M = ("local e={}\nfunction e.f(fr) return 'ok' end\n"
+            "function e.a(fr) local s='' for k,v in pairs(fr.args) do s=s..type(k)..'='..tostring(v)..';' end return s end\n"
+            "function e.p(fr) local s='' for k,v in pairs(fr:getParent().args) do s=s..type(k)..'='..tostring(v)..';' end return s end\n"
+            "return e")
 
 
 def ctx():
     global _CTX
     if _CTX is None:
         from vf.core.wtp import fresh
-        cm = fresh(lua=True, pages=[("Module:m", 828, "local e={}\nfunction e.f(fr) return 'ok' end\nreturn e")])
+        cm = fresh(lua=True, pages=[("Module:m", 828, MODULE_M)])
         _CTX = (cm, cm.__enter__())
         import atexit
         atexit.register(lambda: cm.__exit__(None, None, None))
@@ -90,12 +112,12 @@ def load_library(c, lib_texts):
         pass
 
 
-def run(c, title, text, budget):
+def run(c, title, text, budget, **kw):
     """Boundary wrapper. Returns (kind, value): kind in ok|exc|cpu."""
     c.start_page(title)
     try:
         with cpu_guard(budget):
-            out = c.expand(text)
+            out = c.expand(text, **kw)
     except CpuBudget as e:
         return "cpu", str(e)[-700:]
     except RecursionError as e:
@@ -219,6 +241,8 @@ def call_contexts(text):
             while k < n and text[k] not in "|}{":
                 k += 1
             callee = text[j:k].strip().lstrip("#").split(":")[0]
+            if not callee and k < n and text[k] == "{":
+                callee = "*"                   # {{ {{...}} | ...}}: the name is computed, it may be ANY template
             out.append((callee, tuple((c, a) for c, a in stack if c != "{{{")))
             stack.append([callee, 0])
             i = k
@@ -248,8 +272,8 @@ def _recursion_shape(lib_texts, text):
     """Mechanism tag for a runaway expansion.  Which bodies call templates that lie on a call-graph cycle, how many
     times, and do those calls sit in the SAME argument position (the expansion stack then repeats one pattern, which the
     loop detector is meant to recognise) or in DIFFERENT positions (aperiodic stack paths)?"""
-    calls = {nm: [(c, ctx) for c, ctx in call_contexts(b) if c in lib_texts] for nm, b in lib_texts.items()}
-    reach = {nm: {c for c, _ in v} for nm, v in calls.items()}
+    calls = {nm: [(c, ctx) for c, ctx in call_contexts(b) if c in lib_texts or c == "*"] for nm, b in lib_texts.items()}
+    reach = {nm: set().union(*[set(lib_texts) if c == "*" else {c} for c, _ in v]) for nm, v in calls.items()}
     changed = True
     while changed:
         changed = False
@@ -267,9 +291,11 @@ def _recursion_shape(lib_texts, text):
     for nm, v in calls.items():
         if nm not in cyc:
             continue
-        into = [ctx for c, ctx in v if c in cyc]
+        into = [ctx for c, ctx in v if c in cyc or c == "*"]
         worst = max(worst, len(into))
         positions = max(positions, len(set(into)))
+        if len(into) >= 2 and any(c == "*" for c, _ in v):
+            positions = max(positions, 2)      # the callee varies with the argument: the stack path need not repeat
     if worst < 2:
         return "cyclic-library/linear-recursion"
     if positions >= 2:
@@ -393,6 +419,263 @@ def one(c, rng, obs, budget, part, fnlist, i):
     return case, probs
 
 
+# ---------------------------------------------------------------- part E: hostile texts
+def _nest(o, c, n, core="x"):
+    return o * n + core + c * n
+
+
+# name -> (construct tag for the signature, builder(depth) -> (library, page text))
+DEEP_SHAPES = {
+    "calls": ("calls", lambda d: (None, _nest("{{ta|", "}}", d))),
+    "calls-named-arg": ("calls", lambda d: (None, _nest("{{ta|1=", "}}", d))),
+    "calls-in-arg-name": ("calls", lambda d: (None, _nest("{{ta|", "=v}}", d, "k"))),
+    "brace-runs": ("parameter-references", lambda d: (None, _nest("{{", "}}", d, "ta"))),     # long runs group as {{{ ... }}}
+    "parser-functions": ("parser-functions", lambda d: (None, _nest("{{#if:x|", "}}", d, "y"))),
+    "links": ("links", lambda d: (None, _nest("[[a|", "]]", d))),
+    "external-links": ("external-links", lambda d: (None, _nest("[http://e.x ", "]", d))),
+    "links-and-calls": ("links", lambda d: (None, _nest("[[a|{{ta|", "}}]]", d // 2))),
+    "parameter-defaults": ("parameter-references", lambda d: (None, _nest("{{{1|", "}}}", d))),
+    "parameter-names": ("parameter-references", lambda d: (None, _nest("{{{", "}}}", d, "a"))),
+    "links-and-parameter-defaults": ("parameter-references", lambda d: (None, _nest("{{{a|[[b|", "]]}}}", d // 2))),
+    "calls-inside-parameter-default": ("constructs-inside-parameter-default", lambda d: (None, "{{{1|" + _nest("{{ta|", "}}", d) + "}}}")),
+    "links-inside-parameter-default": ("constructs-inside-parameter-default", lambda d: (None, "{{{1|" + _nest("[[a|", "]]", d) + "}}}")),
+    "body-of-calls": ("constructs-inside-template-body", lambda d: ({"tb": _nest("{{ta|", "}}", d)}, "{{tb}}")),
+    "body-of-links": ("constructs-inside-template-body", lambda d: ({"tb": _nest("[[a|", "]]", d)}, "{{tb|1}}")),
+    "body-of-parameter-defaults": ("constructs-inside-template-body", lambda d: ({"tb": _nest("{{{1|", "}}}", d)}, "{{tb}}")),
+    "body-of-parser-functions": ("constructs-inside-template-body", lambda d: ({"tb": _nest("{{#if:{{{1|}}}|", "}}", d, "y")}, "{{tb|1}}")),
+}
+DEEP_DEPTHS = [150, 400, 1100]      # interpreter recursion limit 1000: one Python frame per level is enough to hit it at 1100
+DEEP_COMBOS = [(nm, pre, dep) for nm in sorted(DEEP_SHAPES) for pre in (False, True) for dep in DEEP_DEPTHS]
+
+
+def e_deep(c, obs, budget, combo):
+    """Nesting far beyond the depth limit of 100: never an exception; a depth cut must be recorded."""
+    nm, pre, depth = combo
+    tag, build = DEEP_SHAPES[nm]
+    lib, text = build(depth)
+    lib_texts = dict(PLAIN_LIB, **(lib or {}))
+    load_library(c, lib_texts)
+    kw = {"pre_expand": True} if pre else {}
+    kind, val = run(c, "Pg", text, budget, **kw)
+    case = {"part": "E", "class": "deep", "shape": nm, "depth": depth, "library": lib_texts, "text": text, "kw": kw}
+    obs.check("returns-str-in-budget")
+    obs.check("deep-nesting>100-never-raises")
+    obs.add("deep-shapes", nm + ("/pre_expand" if pre else ""))
+    probs = []
+    if pre and tag == "calls":
+        tag = "calls-left-unexpanded(pre_expand)"      # the other constructs take the same path in both modes
+    if kind == "cpu":
+        probs.append(("no-return-within-cpu-budget/nesting>100/" + tag, val))
+    elif kind == "exc":
+        probs.append(("raises:%s/nesting>100/%s" % (type(val).__name__, tag),
+                      "%s depth=%d%s %s" % (nm, depth, " pre_expand" if pre else "", repr(val)[:120])))
+    elif not isinstance(val, str):
+        probs.append(("expand-returns-non-str", type(val).__name__))
+    elif "too deep recursion" in val:
+        obs.count("depth_limit_fired")
+        obs.count("depth_limit_fired(nesting>100)")
+        if not c.errors:
+            probs.append(("depth-overflow-without-recorded-error", nm))
+    return case, probs
+
+
+def _name_class(nm):
+    t = nm.strip()
+    if t.isdecimal():
+        if len(t) > 4300:
+            return "decimal>4300-digits"
+        if len(t) > 18:
+            return "decimal-19..4300-digits"
+        return "decimal<=18-digits"
+    return "not-decimal"
+
+
+HOSTILE_NAMES = ["1" * 4301, "9" * 5000, "0" * 4400 + "1", "1" * 4300, "9" * 19, "9223372036854775808", "18446744073709551616",
+                 "9" * 25, "1" + "0" * 60, "9" * 18, "4294967296", "1001", "1000", "0", "00", "007", "-1", "+1", "1.0", "1e3", " 2 ",
+                 "١٢", "１", "²", "①", "१" * 30, "١" * 4301, "1_000", "", " ", "n", "1 1"]
+NAME_FORMS = ["{{{%s}}}", "{{{%s|d}}}", "{{ta|%s=v}}", "{{tn}}", "{{tn|%s=v}}", "{{#invoke:m|a|%s=v}}", "{{tp|%s=v}}", "{{tp|%s=v|1=w}}",
+              "{{#if:x|{{{%s|d}}}}}", "{{ta|{{{%s}}}=v}}", "{{#switch:%s|%s=a|b}}", "{{#invoke:m|a|x|%s=v|%s=w}}"]
+NAME_COMBOS = [(nm, f) for nm in HOSTILE_NAMES for f in NAME_FORMS]
+
+
+def e_names(c, obs, budget, combo):
+    """Argument NAMES are read in parameter references, call arguments, #invoke arguments and parent frames handed to Lua."""
+    nm, form = combo
+    lib_texts = dict(PLAIN_LIB, tn="[{{{%s|d}}}]" % nm, tp="{{#invoke:m|p}}")
+    load_library(c, lib_texts)
+    text = form.replace("%s", nm)
+    kind, val = run(c, "Pg", text, budget)
+    case = {"part": "E", "class": "names", "library": lib_texts, "text": text}
+    obs.check("returns-str-in-budget")
+    obs.check("hostile-argument-name-never-raises")
+    obs.add("name-classes", _name_class(nm) + ("" if nm.isascii() else "/non-ascii"))
+    probs = []
+    if kind == "cpu":
+        probs.append(("no-return-within-cpu-budget/hostile-argument-name(%s)" % _name_class(nm), val))
+    elif kind == "exc":
+        probs.append(("raises:%s/hostile-argument-name(%s)" % (type(val).__name__, _name_class(nm)),
+                      "%s in %s" % (repr(val)[:120], form)))
+    elif not isinstance(val, str):
+        probs.append(("expand-returns-non-str", type(val).__name__))
+    return case, probs
+
+
+SOUP_TOK = ["{{", "}}", "{", "}", "{{{", "}}}", "-{}-", "-{", "}-", "}{", "|", "=", "[[", "]]", "[", "]", "x", "-", " ", "\n", ":",
+            "<nowiki>", "</nowiki>", "<nowiki/>", "<!--", "-->", "<", ">", "{|", "|}", "''", "http://e.x", "#"]
+SOUP_PREFIX = ["{{", "{{", "{{{", "[[", "[", "{{x|", "{{{1|", "{{x", "", "<nowiki>", "<!--", "{|"]
+SOUP_SUFFIX = ["", "", "}}", "}", "]]", "|", "}}}", "\n"]
+SOUP_BUDGET = 2
+
+
+def soup_text(rng):
+    if rng.random() < 0.45:
+        unit = "".join(rng.choice(SOUP_TOK) for _ in range(rng.randint(1, 3)))
+        k = rng.choice([12, 25, 40, 60])
+        text = rng.choice(SOUP_PREFIX) + unit * k + rng.choice(SOUP_SUFFIX)
+        return text[:400], "pumped"
+    return "".join(rng.choice(SOUP_TOK) for _ in range(rng.randint(3, 60)))[:400], "random"
+
+
+def stuck_in(trace):
+    """Innermost package function named in the stack the CPU watchdog recorded."""
+    import re
+    fns = re.findall(r'wikitextprocessor/(\w+)\.py", line \d+, in (\w+)\n([^\n]*)', trace)
+    if not fns:
+        return "?"
+    mod, fn, line = fns[-1]
+    rx = re.search(r"\b([A-Z_]+_RE)\.", line)        # the compiled pattern the function was running, when it says so
+    return "%s.py:%s%s" % (mod, fn, "(%s)" % rx.group(1) if rx else "")
+
+
+PUMP_COMBOS = [(pre, fill + tok) for pre in sorted(set(SOUP_PREFIX)) for tok in SOUP_TOK for fill in ("", "x")]
+PUMP_BUDGET = 5
+
+
+def e_soup(c, rng, obs, pump=None):
+    """Pages of bracket vocabulary that call no existing template: tokenising/encoding them must be quick.
+    Random / pumped texts of <= 400 characters get 2 CPU-seconds; `pump` = (prefix, unit): prefix + unit repeated up to
+    2000 characters gets 5 CPU-seconds (every prefix x every single token of the vocabulary, bare and after a letter)."""
+    if pump is not None:
+        text, how, bud = (pump[0] + pump[1] * (2000 // len(pump[1])))[:2000], "pumped-2kB", PUMP_BUDGET
+    else:
+        text, how = soup_text(rng)
+        bud = SOUP_BUDGET
+    if _LIB.get("cur") is not PLAIN_LIB:
+        load_library(c, PLAIN_LIB)
+    kind, val = run(c, "Pg", text, bud)
+    case = {"part": "E", "class": "soup", "text": text}
+    obs.check("returns-str-in-budget")
+    obs.check("bracket-soup-returns-in-2s" if pump is None else "pumped-2kB-page-returns-in-5s")
+    obs.count("E.soup." + how)
+    probs = []
+    if kind == "cpu":
+        probs.append(("no-return-within-cpu-budget/bracket-soup-without-templates/stuck-in:" + stuck_in(val), val))
+    elif kind == "exc":
+        probs.append(("raises:" + exc_sig(val) + "/bracket-soup", repr(val)[:160]))
+    elif not isinstance(val, str):
+        probs.append(("expand-returns-non-str", type(val).__name__))
+    return case, probs
+
+
+PLACEHOLDER_FORMS = ["x%sy", "{{{a|%s}}}", "{{{%s}}}", "{{ta|%s}}", "{{ta|%s=v}}", "{{ta}}%s", "[[a|%s]]", "%s{{ta|{{ta}}}}", "{{#if:%s|a|b}}",
+                     "{{#if:x|{{{1|%s}}}}}", "[http://e.x %s]", "{{%s}}"]
+PLACEHOLDER_OFFSETS = [0, 1, 2, 3, 7, 50000]
+PLACEHOLDER_COMBOS = [(o, f) for o in PLACEHOLDER_OFFSETS for f in PLACEHOLDER_FORMS]
+
+
+def e_placeholder(c, obs, budget, combo):
+    """The package reserves private-use characters (common.py) as stand-ins for encoded constructs; here they occur in the INPUT."""
+    from wikitextprocessor.common import MAGIC_FIRST
+    off, form = combo
+    if _LIB.get("cur") is not PLAIN_LIB:
+        load_library(c, PLAIN_LIB)
+    text = form % chr(MAGIC_FIRST + off)
+    kind, val = run(c, "Pg", text, min(budget, 2))
+    live = off < len(c.cookies)
+    case = {"part": "E", "class": "placeholder", "text": text}
+    obs.check("returns-str-in-budget")
+    obs.check("placeholder-char-in-input-never-raises")
+    # same keys as the C01 finding for a character that is taken for one of the page's own encoded constructs; a
+    # character beyond them (no such construct) is a separate, local mechanism
+    which = "" if live else "/unknown-cookie-index"
+    probs = []
+    if kind == "cpu":
+        probs.append(("placeholder-char-in-input/no-return" + which, val))
+    elif kind == "exc":
+        probs.append(("placeholder-char-in-input/raises" + which, repr(val)[:120] + " form=" + form))
+    elif not isinstance(val, str):
+        probs.append(("expand-returns-non-str", type(val).__name__))
+    return case, probs
+
+
+def square_free_word(n):
+    """Thue's square-free word over {a,b,c} (run lengths of 1s between the 0s of the Thue-Morse sequence)."""
+    tm = "".join(str(bin(i).count("1") % 2) for i in range(8 * n + 16))
+    runs = [len(x) for x in tm.split("0")[1:-1]]
+    return "".join("abc"[x] for x in runs)[:n]
+
+
+WALK_CALL = "{{{{#sub:{{{1}}}|0|1}}|{{#sub:{{{1}}}|1}}}}"
+
+
+def e_walk(c, rng, obs, budget, branching):
+    """Cyclic call graph on three templates where the callee is NAMED by the argument: the expansion walks the cycle along
+    a given word (square-free = the stack never ends in a repetition; periodic = it does).  One call per body unless
+    `branching`."""
+    k = 2 if branching else 1
+    lib_texts = {nm: (WALK_CALL + rng.choice(["", "-", " "])) * k for nm in "abc"}
+    if branching:
+        word = square_free_word(40)
+    elif rng.random() < 0.7:
+        word = square_free_word(rng.choice([5, 12, 30, 60, 95, 120, 150]))
+    else:
+        word = (rng.choice(["ab", "abc", "a", "abcb"]) * 40)[:rng.choice([6, 20, 70, 130])]
+    text = "{{%s|%s}}" % (word[0], word[1:])
+    load_library(c, lib_texts)
+    kind, val = run(c, "Pg", text, budget)
+    case = {"part": "E", "class": "walk", "library": lib_texts, "text": text}
+    obs.check("returns-str-in-budget")
+    probs = []
+    if kind == "cpu":
+        probs.append(("no-return-within-cpu-budget/" + recursion_shape(lib_texts, text), val))
+    elif kind == "exc":
+        probs.append(("raises:" + exc_sig(val) + "/computed-template-name-walk", repr(val)[:160]))
+    elif not isinstance(val, str):
+        probs.append(("expand-returns-non-str", type(val).__name__))
+    else:
+        if "Template loop detected" in val:
+            obs.count("loop_detector_fired")
+            obs.count("loop_detector_fired(computed-name-walk)")
+        if "too deep recursion" in val:
+            obs.count("depth_limit_fired")
+            obs.count("depth_limit_fired(computed-name-walk)")
+            if not c.errors:
+                probs.append(("depth-overflow-without-recorded-error", "computed-template-name-walk"))
+    return case, probs
+
+
+def part_e(c, rng, obs, spec):
+    """Part E cases of one shard: the enumerated combos are dealt round-robin over the 16 shards (quick: every combo once
+    per run; thorough: the same plus many more soups), so which shard runs what does not depend on the seed."""
+    idx, budget, tier = spec["idx"], spec["budget"], spec["tier"]
+    out = []
+    for combo in DEEP_COMBOS[idx::16]:
+        out.append(("E.deep-nesting>100", e_deep(c, obs, budget, combo)))
+    for combo in NAME_COMBOS[idx::16]:
+        out.append(("E.hostile-argument-names", e_names(c, obs, budget, combo)))
+    for combo in PLACEHOLDER_COMBOS[idx::16]:
+        out.append(("E.placeholder-chars", e_placeholder(c, obs, budget, combo)))
+    for _ in range(6):
+        out.append(("E.computed-name-walks", e_walk(c, rng, obs, budget, False)))
+    if idx == 3:
+        out.append(("E.computed-name-walks(branching)", e_walk(c, rng, obs, budget, True)))
+    for _ in range({"quick": 120, "thorough": 6000}[tier]):
+        out.append(("E.bracket-soups", e_soup(c, rng, obs)))
+    for combo in PUMP_COMBOS[idx::16]:
+        out.append(("E.bracket-soups", e_soup(c, rng, obs, pump=combo)))
+    return out
+
+
 def run_shard(spec):
     import wikitextprocessor.core as core
     import wikitextprocessor.parserfns as PF
@@ -460,15 +743,23 @@ def run_shard(spec):
         obs.case(case, nontrivial=True, sample=case if len(case["text"]) < 200 else None)
         for sig, msg in probs:
             obs.violation(sig, msg, case)
+    for counter, (case, probs) in part_e(c, random.Random(spec["seed"] * 7 + 5), obs, spec):
+        obs.count(counter)
+        obs.count("part.E")
+        obs.case(case, nontrivial=True, sample=case if len(case["text"]) < 200 else None)
+        for sig, msg in probs:
+            obs.violation(sig, msg, case)
     obs.anchors.update(anchors.snapshot())
     return obs
 
 
 def replay(case):
     c = ctx()
-    if case["part"] == "A":
+    if case["part"] == "A" or "library" in case:
         load_library(c, case["library"])
-    kind, val = run(c, case.get("title", "Pg"), case["text"], 20)
+    elif case["part"] == "E":
+        load_library(c, PLAIN_LIB)
+    kind, val = run(c, case.get("title", "Pg"), case["text"], 20, **case.get("kw", {}))
     v = []
     if kind == "cpu":
         v.append("no-return-within-cpu-budget")
